@@ -470,37 +470,41 @@ ELeaf2 == {EL(<< <<"bare", "A">> >>), EL(<< <<"esc", "$">>, L("A") >>), EL(<< <<
            EL(<< <<"esc", "\\">>, <<"esc", "\"">> >>),
            <<"sq", Chars("$A")>>, <<"sq", Chars("a\"\\b")>>, <<"sq", <<>> >>, <<"sq", Chars("a")>>,
            <<"call", FNoFun, <<>> >>, <<"call", FSb, <<>> >>}
-ELeaves(k) == IF Rich THEN (IF k = 1 THEN ELeaf1 \cup ELeaf2 ELSE {})
-              ELSE (IF k = 1 THEN ELeaf1 ELSE IF k = 2 THEN ELeaf2 ELSE {})
-ECallSpecs == {<<FEq, <<"s", "s">> >>, <<FNe, <<"s", "s">> >>, <<FNot, <<"s">> >>, <<FOr, <<"s", "s">> >>,
-               <<FAnd, <<"s", "s">> >>, <<FStrip, <<"s">> >>, <<FIte, <<"s", "s", "s">> >>,
-               <<FMatch, <<"s", "p">> >>, <<FTool, <<"tool">> >>, <<FEq, <<"s">> >>}
+\* "slim" generators (sl = TRUE) are used for the largest expressions: few leaves, two functions
+ELeafSlim == {EL(<<>>), EL(<<L("a")>>), EL(<< <<"var", "A">> >>)}
+ELeaves(k, sl) == IF sl THEN (IF k = 1 THEN ELeafSlim ELSE {})
+                  ELSE IF Rich THEN (IF k = 1 THEN ELeaf1 \cup ELeaf2 ELSE {})
+                  ELSE (IF k = 1 THEN ELeaf1 ELSE IF k = 2 THEN ELeaf2 ELSE {})
+ECallSpecs(sl) == IF sl THEN {<<FEq, <<"s", "s">> >>, <<FNot, <<"s">> >>}
+                  ELSE {<<FEq, <<"s", "s">> >>, <<FNe, <<"s", "s">> >>, <<FNot, <<"s">> >>, <<FOr, <<"s", "s">> >>,
+                        <<FAnd, <<"s", "s">> >>, <<FStrip, <<"s">> >>, <<FIte, <<"s", "s", "s">> >>,
+                        <<FMatch, <<"s", "p">> >>, <<FTool, <<"tool">> >>, <<FEq, <<"s">> >>}
 CmpOps == {"==", "!=", "<", "<=", ">", ">="}
 \* all six operators on all pairs of small operands; with larger operands one equality and one order
-CmpOpsAt(k) == IF k <= 2 THEN CmpOps ELSE {"==", "<="}
+CmpOpsAt(k, sl) == IF k <= 2 /\ ~sl THEN CmpOps ELSE {"==", "<="}
 
-RECURSIVE StrE(_), EArgTuples(_, _), BoolE(_)
-EArgSet(kind, j) ==
-  CASE kind = "s" -> IF j = 0 THEN {} ELSE StrE(j)
+RECURSIVE StrE(_, _), EArgTuples(_, _, _), BoolE(_, _)
+EArgSet(kind, j, sl) ==
+  CASE kind = "s" -> IF j = 0 THEN {} ELSE StrE(j, sl)
     [] kind = "p" -> IF j = 1 THEN {<<"sq", Chars("^a")>>, EL(<<L("a")>>)} ELSE {}
     [] kind = "tool" -> IF j = 1 THEN {EL(<<L("t")>>), EL(<<L("a")>>)} ELSE {}
-EArgTuples(spec, m) ==
+EArgTuples(spec, m, sl) ==
   IF Len(spec) = 0 THEN (IF m = 0 THEN {<<>>} ELSE {})
-  ELSE UNION {{<<a>> \o rest : a \in EArgSet(spec[1], j), rest \in EArgTuples(Tail(spec), m - j)} : j \in 1..m}
+  ELSE UNION {{<<a>> \o rest : a \in EArgSet(spec[1], j, sl), rest \in EArgTuples(Tail(spec), m - j, sl)} : j \in 1..m}
 \* string typed expressions
-StrE(k) == IF k = 0 THEN {}
-           ELSE ELeaves(k) \cup
-                (IF k < 2 THEN {} ELSE UNION {{<<"call", fs[1], as>> : as \in EArgTuples(fs[2], k - 1)} : fs \in ECallSpecs})
+StrE(k, sl) == IF k = 0 THEN {}
+               ELSE ELeaves(k, sl) \cup
+                    (IF k < 2 THEN {} ELSE UNION {{<<"call", fs[1], as>> : as \in EArgTuples(fs[2], k - 1, sl)} : fs \in ECallSpecs(sl)})
 \* string typed operands of comparisons may be parenthesised
-StrP(k) == StrE(k) \cup (IF k < 2 THEN {} ELSE {<<"par", e>> : e \in StrE(k - 1)})
-WellE(k) == StrE(k) \cup BoolE(k)
+StrP(k, sl) == StrE(k, sl) \cup (IF k < 2 THEN {} ELSE {<<"par", e>> : e \in StrE(k - 1, sl)})
+WellE(k, sl) == StrE(k, sl) \cup BoolE(k, sl)
 \* boolean typed, well typed expressions
-BoolE(k) ==
+BoolE(k, sl) ==
   IF k < 2 THEN {}
-  ELSE UNION {{<<"cmp", op, l, r>> : op \in CmpOpsAt(k), l \in StrP(i), r \in StrP(k - i)} : i \in 1..(k - 1)}
-       \cup {<<"not", e>> : e \in WellE(k - 1)}
-       \cup {<<"par", e>> : e \in BoolE(k - 1)}
-       \cup UNION {{<<o, l, r>> : o \in {"and", "or"}, l \in WellE(i), r \in WellE(k - i)} : i \in 1..(k - 1)}
+  ELSE UNION {{<<"cmp", op, l, r>> : op \in CmpOpsAt(k, sl), l \in StrP(i, sl), r \in StrP(k - i, sl)} : i \in 1..(k - 1)}
+       \cup {<<"not", e>> : e \in WellE(k - 1, sl)}
+       \cup {<<"par", e>> : e \in BoolE(k - 1, sl)}
+       \cup UNION {{<<o, l, r>> : o \in {"and", "or"}, l \in WellE(i, sl), r \in WellE(k - i, sl)} : i \in 1..(k - 1)}
 \* ill typed: a comparison with a boolean operand
 SmallBool == {<<"cmp", op, l, r>> : op \in {"==", "<"}, l \in {EL(<<>>), EL(<<L("a")>>)}, r \in {EL(<<L("a")>>)}}
              \cup {<<"not", EL(<<L("a")>>)>>, <<"and", EL(<<L("a")>>), EL(<<>>)>>, <<"par", <<"not", <<"sq", Chars("0")>> >> >>}
@@ -585,12 +589,14 @@ StepRawE == /\ st[1] = "rawe" /\ Len(st[2]) < RawELen
 ETops == {"str", "not", "par", "and", "or"} \cup CmpOps
 StartExpr == /\ st = <<"root">>
              /\ \E k \in 1..MaxESize : \E top \in ETops : \E i \in 1..k : st' = <<"ex", top, k, i>>
+\* expressions of cost >= 4 come from the slim generators
 ExprChunk(top, k, i) ==
-  CASE top = "str" -> IF i = 1 THEN StrE(k) \cup (IF k >= 2 THEN {<<"par", e>> : e \in StrE(k - 1)} ELSE {}) ELSE {}
-    [] top = "not" -> IF i = 1 /\ k >= 2 THEN {<<"not", e>> : e \in WellE(k - 1)} ELSE {}
-    [] top = "par" -> IF i = 1 /\ k >= 3 THEN {<<"par", e>> : e \in BoolE(k - 1)} ELSE {}
-    [] top \in {"and", "or"} -> IF i < k THEN {<<top, l, r>> : l \in WellE(i), r \in WellE(k - i)} ELSE {}
-    [] top \in CmpOps -> IF i < k /\ top \in CmpOpsAt(k) THEN {<<"cmp", top, l, r>> : l \in StrP(i), r \in StrP(k - i)} ELSE {}
+  LET sl == k >= 4 IN
+  CASE top = "str" -> IF i = 1 THEN StrE(k, sl) \cup (IF k >= 2 THEN {<<"par", e>> : e \in StrE(k - 1, sl)} ELSE {}) ELSE {}
+    [] top = "not" -> IF i = 1 /\ k >= 2 THEN {<<"not", e>> : e \in WellE(k - 1, sl)} ELSE {}
+    [] top = "par" -> IF i = 1 /\ k >= 3 THEN {<<"par", e>> : e \in BoolE(k - 1, sl)} ELSE {}
+    [] top \in {"and", "or"} -> IF i < k THEN {<<top, l, r>> : l \in WellE(i, sl), r \in WellE(k - i, sl)} ELSE {}
+    [] top \in CmpOps -> IF i < k /\ top \in CmpOpsAt(k, sl) THEN {<<"cmp", top, l, r>> : l \in StrP(i, sl), r \in StrP(k - i, sl)} ELSE {}
 CaseExpr == /\ st[1] = "ex"
             /\ \E e \in ExprChunk(st[2], st[3], st[4]) : \E env \in EEnvs(e) : st' = ECase("expr", e, env)
 
